@@ -194,7 +194,7 @@ func (ft *frameTamper) feed(b []byte) []byte {
 }
 
 func runMConn(t *tctx) {
-	if atomic.LoadInt32(&mconnTimeouts) >= mconnMaxTimeouts {
+	if atomic.LoadInt32(&mconnTimeouts) >= mconnMaxTimeouts && cfgInt(t.tr, "wait_s", 0) == 0 {
 		t.rep.count("mc_skipped_after_timeouts")
 		return
 	}
@@ -211,6 +211,10 @@ func runMConn1(t *tctx) {
 		caps[byte(id)] = mbt.Int(v)
 	}
 	selftest := cfgStr(t.tr, "selftest", "")
+	mconnWait := mconnWait
+	if w := cfgInt(t.tr, "wait_s", 0); w > 0 {
+		mconnWait = time.Duration(w) * time.Second
+	}
 	var tamper map[string]interface{}
 	if v, ok := t.tr.Cfg["tamper"].(map[string]interface{}); ok {
 		tamper = v
@@ -406,7 +410,11 @@ func runMConn1(t *tctx) {
 			if len(g.data) != len(want) {
 				kind = fmt.Sprintf("has %d bytes instead of %d", len(g.data), len(want))
 			}
-			t.fail(-1, "property", true, "PerChannelOrder:content", fmt.Sprintf("channel %d: message #%d (size %d) arrived %s or out of order", g.ch, i+1, acc[i].size, kind), acc[i].size, len(g.data))
+			key := "PerChannelOrder:content"
+			if acc[i].size == 0 {
+				key = "PerChannelOrder:empty-message-lost"
+			}
+			t.fail(-1, "property", true, key, fmt.Sprintf("channel %d: message #%d (size %d) arrived %s or out of order", g.ch, i+1, acc[i].size, kind), acc[i].size, len(g.data))
 			return
 		}
 		if len(g.data) > caps[g.ch] {
